@@ -27,7 +27,7 @@ def main():
         print(f"== {out['key']}: paths={out['paths']} obligations={len(obs)} not-discharged={len(bad)} "
               f"t={out['seconds']:.1f}s error={out['error']}", flush=True)
         for o in (obs if verbose else bad):
-            print(f"   {o['name']:62s} {o['status']}/{o['solver']:14s} {o['time']:.2f}s  {str(o.get('clause', ''))[:70]}")
+            print(f"   {o['name']:62s} {o['status']}/{o['solver']:14s} {o['time']:.2f}s  {str(o.get('clause', ''))[-110:]}")
             if o.get("model") and o["status"] == "sat":
                 print("      model:", str(o["model"])[:300])
 
